@@ -73,6 +73,66 @@ def _is_enum_const(e, adt, variant):
     return e[0] == 'agg' and e[1] == adt and e[2] == variant
 
 
+def address_size_rule(ctx, facts, cfg, rid, pol=None):
+    """Every Ok path of parse_rr on which the record type is known to be A (AAAA) passes the `rdlen == 4` (16) test - path-sensitive,
+    so a guarded arm that falls through to the opaque default is seen.  Shared by C02.a and C03.g (the unchecked address readers)."""
+    pol = pol or policy()
+    rf = facts.fns.get(PRR)
+    if rf is None:
+        ctx.missing(rid, PRR)
+        return
+
+    def _fact(name, ok, detail, key, site):
+        ctx.instance(rid, '%s: %s' % (name, detail), ok=ok, site=site)
+        if not ok:
+            ctx.violation(rid, key, name.replace(' ', '-'), 'accept-path fact "%s" does not hold on every accepting path: %s' % (name, detail), site=site, config=cfg)
+    # ... on EVERY accepting path on which the type is known to be A / AAAA (not only inside "the" arm: a guarded arm that falls
+    # through to the opaque default would let other sizes in)
+    class _SizeAu(Automaton):
+        init = (None, False)
+
+        def on_edge(self_, q, f_, bi_, t_, value, target, env_):
+            arm, sized = q
+            e_ = F.expr(f_, F.single_defs(f_), t_['discr'])
+            if e_[0] != 'binop' or e_[1] not in ('Eq', 'Ne'):
+                return q
+            truth = (value != 0) if value is not None else all(v == 0 for v, _ in t_['targets'])
+            equal = truth if e_[1] == 'Eq' else not truth
+            rs_ = F.roots(f_, F.single_defs(f_), t_['discr'])
+            is_ty = any(r[0] == 'call' and r[1].endswith('DNSSector::rr_type') for r in rs_)
+            is_rd = any(r[0] == 'call' and r[1].endswith('DNSSector::rr_rdlen') for r in rs_)
+            if is_ty and not is_rd:
+                v_ = None
+                for side in (e_[2], e_[3]):
+                    x_ = side
+                    while x_[0] in ('cast',):
+                        x_ = x_[2]
+                    if x_[0] == 'call' and x_[2]:
+                        x_ = x_[2][0]
+                    if x_[0] == 'agg' and x_[1] == 'constants::Type':
+                        v_ = x_[2]
+                if v_ is not None:
+                    if equal:
+                        if arm is not None and arm != v_:
+                            return 'PRUNE'
+                        return (v_, sized)
+                    if arm == v_:
+                        return 'PRUNE'
+                return q
+            if is_rd and not is_ty and arm in ('A', 'AAAA'):
+                want_ = pol['a_len'] if arm == 'A' else pol['aaaa_len']
+                if any(side == ('const', want_) for side in (e_[2], e_[3])) and equal:
+                    return (arm, True)
+            return q
+    sflow = PathFlow(facts, _SizeAu())
+    sexits = sflow.summary(PRR, _SizeAu.init)
+    for arm_ in ('A', 'AAAA'):
+        oks_ = [(q_, k_) for (q_, k_) in sexits if k_ == 'Ok' and q_[0] == arm_]
+        bad_ = [(q_, k_) for (q_, k_) in oks_ if not q_[1]]
+        _fact('%s record size on every accepting path' % arm_, bool(oks_) and not bad_, 'every Ok path of parse_rr on which the type is %s passes the `rdlen == %d` test (%d exit state(s), %d without the test)'
+             % (arm_, pol['a_len'] if arm_ == 'A' else pol['aaaa_len'], len(oks_), len(bad_)), PRR, rf['at'])
+
+
 def accept_rule(ctx, facts, cfg, pol):
     rid = 'C02.a'
     e4 = E4(facts, keep_instates=True, probes=[('<aggregate:std::option::Option>', PARSE), ('DNSSector::increment_offset', PRR), ('DNSSector::increment_offset', PQ),
@@ -210,6 +270,7 @@ def accept_rule(ctx, facts, cfg, pol):
         s = seq(arm)
         ok = len(s) == 1 and s[0]['callee'] == 'increment_offset' and s[0].get('rdlen') == (want, want) and s[0].get('arg') == (H + want, H + want)
         fact('%s record size' % arm, ok, '%s arm: %s' % (arm, [{k: v for k, v in e.items() if k != 'at'} for e in s]), PRR, s[0]['at'] if s else rf['at'])
+    address_size_rule(ctx, facts, cfg, rid, pol)
     s = seq('default')
     ok = len(s) == 1 and s[0]['callee'] == 'increment_offset' and s[0].get('arg-rdlen') == (H, H)
     fact('opaque record consumed exactly', ok, 'default arm: %s' % [{k: v for k, v in e.items() if k != 'at'} for e in s], PRR, s[0]['at'] if s else rf['at'])
